@@ -81,3 +81,10 @@ func (w *Wallet) VerifStep() (VerifStepResult, error) {
 	res.Attached, res.Height, res.Hash = true, block.Height, block.Hash().Byte32()
 	return res, nil
 }
+
+// VerifRescan requests a rescan the way the rescan API, UpdateAccountAlias and DeleteAccount do
+// (RescanBlocks) and lets the updater notice it (getRescanNotification, the first thing its loop does).
+func (w *Wallet) VerifRescan() {
+	w.RescanBlocks()
+	w.getRescanNotification()
+}
